@@ -206,7 +206,8 @@ def run(res, a):
         for part in partitions(rnd, len(g["insts"]), 3 if a.tier == "quick" else 5):
             cases.append((g, part, rsize, xs))
     # many externally fed ports on one processor (input indices of two digits)
-    for nin in ((12,) if a.tier == "quick" else (11, 12, 17)):
+    # (the Coq-side pass model of the check runs on 16 registers: at most 13 inputs)
+    for nin in ((12,) if a.tier == "quick" else (11, 12, 13)):
         g = wide_graph(nin)
         xs = [rnd.randrange(1, 20) for _ in range(nin)]
         ni = nin - 1
